@@ -1,6 +1,9 @@
 // C01 — dispatch = registration-order first match; the lookup index (3-byte buckets + cursor) is transparent.
 // Exhaustive enumeration of small route tables x requests x configs x ctx kinds; the real router is
 // compared with a linear reference dispatcher that uses the real per-route matcher (ref.go).
+// Tables: every sequence of <=2 entries over the full alphabet; every sequence of 3 entries over the
+// same-path / multi-method family (escaped/unescaped twin patterns, all multi-method registration sites,
+// 1 or 5 handlers per call); thorough adds every 3-entry sequence over a sub-alphabet.
 package main
 
 import (
@@ -39,11 +42,15 @@ func uriOf(p string) string {
 
 // wstate is the private state of one worker goroutine.
 type wstate struct {
-	trace    []uint8
+	raw      []uint8 // handler executions of the current request: registration position<<3 | index in the chain (7 = last handler)
+	trace    []uint8 // raw collapsed to registrations: one element per complete chain (see collapse)
+	broken   bool    // some registration's handlers did not run as one complete in-order chain
 	overflow bool
 	fctx     fasthttp.RequestCtx
-	reqs     [][]*fasthttp.Request // [reqMethods][reqPaths]
-	h        [maxLen][nBeh]fiber.Handler
+	reqs     [][]*fasthttp.Request               // [reqMethods][reqPaths]
+	h        [maxLen][nBeh]fiber.Handler         // last handler of the chain of registration pos
+	pre      [maxLen][maxChain - 1]fiber.Handler // pass-through handlers in front of it (chains longer than 1)
+	chain    [maxChain]fiber.Handler
 	// registration -> route objects created / merged into, per method stack
 	rt [maxLen][nMeth]*fiber.Route
 	hi [maxLen][nMeth]int
@@ -52,15 +59,63 @@ type wstate struct {
 	acc *acc
 }
 
-func (ws *wstate) mk(pos uint8, beh int) fiber.Handler {
-	enter := func() bool {
-		if len(ws.trace) >= maxTrace {
-			ws.overflow = true
-			return false
+const lastInChain = 7
+
+func (ws *wstate) enter(pos, idx uint8) bool {
+	if len(ws.raw) >= maxTrace {
+		ws.overflow = true
+		return false
+	}
+	ws.raw = append(ws.raw, pos<<3|idx)
+	return true
+}
+
+// mkPre makes the idx-th pass-through handler of a chain longer than one.
+func (ws *wstate) mkPre(pos, idx uint8) fiber.Handler {
+	return func(c fiber.Ctx) error {
+		if !ws.enter(pos, idx) {
+			return nil
+		}
+		return c.Next()
+	}
+}
+
+// handlersOf gives the handler chain of entry e registered at position pos (valid until the next call).
+func (ws *wstate) handlersOf(pos int, e entry) []fiber.Handler {
+	n := e.chain()
+	copy(ws.chain[:n-1], ws.pre[pos][:n-1])
+	ws.chain[n-1] = ws.h[pos][e.beh]
+	return ws.chain[:n]
+}
+
+// collapse turns the handler-level trace into the registration-level one: a complete chain (pass-throughs
+// 0..n-2 in order, then the last handler) becomes one element. Anything else sets broken and is kept
+// handler by handler.
+func (ws *wstate) collapse(tbl []entry) {
+	ws.trace, ws.broken = ws.trace[:0], false
+	for i := 0; i < len(ws.raw); {
+		pos := ws.raw[i] >> 3
+		n := tbl[pos].chain()
+		ok := i+n <= len(ws.raw)
+		for j := 0; ok && j < n; j++ {
+			want := pos<<3 | uint8(j)
+			if j == n-1 {
+				want = pos<<3 | lastInChain
+			}
+			ok = ws.raw[i+j] == want
 		}
 		ws.trace = append(ws.trace, pos)
-		return true
+		if ok {
+			i += n
+		} else {
+			ws.broken = true
+			i++
+		}
 	}
+}
+
+func (ws *wstate) mk(pos uint8, beh int) fiber.Handler {
+	enter := func() bool { return ws.enter(pos, lastInChain) }
 	switch beh {
 	case bReply:
 		return func(c fiber.Ctx) error { enter(); return c.SendString("ok") }
@@ -112,6 +167,9 @@ func newWstate() *wstate {
 		for b := 0; b < nBeh; b++ {
 			ws.h[pos][b] = ws.mk(uint8(pos), b)
 		}
+		for j := 0; j < maxChain-1; j++ {
+			ws.pre[pos][j] = ws.mkPre(uint8(pos), uint8(j))
+		}
 	}
 	// fx.CallInto once: attaches the fake connection / peer to this worker's RequestCtx. Afterwards the
 	// same ctx is re-used with only Request/Response reset per call (what CallInto does, minus Init2).
@@ -142,14 +200,14 @@ func (ws *wstate) build(tbl []entry, c cfgT, custom bool) (*fiber.App, fasthttp.
 				hcs[m] = len(st[m][lens[m]-1].Handlers)
 			}
 		}
-		register(app, e, ws.h[i][e.beh])
+		register(app, e, ws.handlersOf(i, e))
 		st = app.Stack()
 		for m := 0; m < nMeth; m++ {
 			ws.rt[i][m], ws.hi[i][m] = nil, 0
 			switch l := len(st[m]); {
 			case l == lens[m]+1:
 				ws.rt[i][m] = st[m][l-1]
-			case l == lens[m] && l > 0 && len(st[m][l-1].Handlers) == hcs[m]+1:
+			case l == lens[m] && l > 0 && len(st[m][l-1].Handlers) == hcs[m]+e.chain():
 				ws.rt[i][m], ws.hi[i][m] = st[m][l-1], hcs[m] // duplicate path: merged into the previous route object
 			case l != lens[m]:
 				core.Fatal("registration %v changed stack %d by %d routes", e, m, l-lens[m])
@@ -161,6 +219,7 @@ func (ws *wstate) build(tbl []entry, c cfgT, custom bool) (*fiber.App, fasthttp.
 
 type observed struct {
 	trace  []uint8
+	raw    []uint8 // handler-level trace (aliases the worker's buffer: valid until the next call)
 	status int
 	allow  uint16
 	badAl  string
@@ -190,20 +249,22 @@ func parseAllow(b []byte) (mask uint16, bad string) {
 	return mask, bad
 }
 
-func (ws *wstate) call(h fasthttp.RequestHandler, req *fasthttp.Request) (o observed) {
-	ws.trace = ws.trace[:0]
+func (ws *wstate) call(h fasthttp.RequestHandler, req *fasthttp.Request, tbl []entry) (o observed) {
+	ws.raw = ws.raw[:0]
 	ws.overflow = false
 	defer func() {
 		if rec := recover(); rec != nil {
 			o.panicv = fmt.Sprint(rec)
-			o.trace = ws.trace
+			ws.collapse(tbl)
+			o.trace, o.raw = ws.trace, ws.raw
 		}
 	}()
 	ws.fctx.Request.Reset()
 	ws.fctx.Response.Reset()
 	req.CopyTo(&ws.fctx.Request)
 	h(&ws.fctx)
-	o.trace = ws.trace
+	ws.collapse(tbl)
+	o.trace, o.raw = ws.trace, ws.raw
 	o.status = ws.fctx.Response.StatusCode()
 	o.allow, o.badAl = parseAllow(ws.fctx.Response.Header.Peek("Allow"))
 	return o
@@ -230,7 +291,7 @@ func (ws *wstate) runTable(tbl []entry, paths []int, l *core.Local, sampleIt boo
 						ws.ref[mi][pi] = refDispatch(ci, tbl, m, int(pathCanon[ci][pi]))
 					}
 					ref := &ws.ref[mi][pi]
-					o := ws.call(h, ws.reqs[mi][pi])
+					o := ws.call(h, ws.reqs[mi][pi], tbl)
 					a.evals++
 					if ref.n > 0 || ref.status == 405 {
 						a.nontrivial++
@@ -244,6 +305,18 @@ func (ws *wstate) runTable(tbl []entry, paths []int, l *core.Local, sampleIt boo
 					}
 					if ov != 0 {
 						a.overrides++
+					}
+					if ref.n >= 2 {
+						a.multiRun++
+					}
+					for k := 0; k < ref.n; k++ {
+						if tbl[ref.trace[k]].cl != 0 {
+							a.chainRun++
+							break
+						}
+					}
+					if ref.spec && ref.status == 405 {
+						a.exp405++
 					}
 					ovObs := 0 // outcome classes use what was OBSERVED: status, handlers run, override handlers among them
 					for _, pos := range o.trace {
@@ -278,7 +351,7 @@ func (ws *wstate) runTable(tbl []entry, paths []int, l *core.Local, sampleIt boo
 // judge compares one observation with the reference; true = conforms (or unspecified).
 func (ws *wstate) judge(app *fiber.App, ci, ctxKind int, tbl []entry, mi, pi int, ref *refResult, o *observed) bool {
 	a := ws.acc
-	same := len(o.trace) == ref.n && o.panicv == "" && !ws.overflow
+	same := len(o.trace) == ref.n && o.panicv == "" && !ws.overflow && !ws.broken
 	if same {
 		for k := 0; k < ref.n; k++ {
 			if o.trace[k] != ref.trace[k] {
@@ -303,14 +376,16 @@ func (ws *wstate) judge(app *fiber.App, ci, ctxKind int, tbl []entry, mi, pi int
 	return false
 }
 
-func entryID(e entry) int { return (int(e.kind)*len(patterns)+int(e.pat))*nBeh + int(e.beh) }
+func entryID(e entry) int {
+	return ((int(e.kind)*len(patterns)+int(e.pat))*nBeh+int(e.beh))*nLens + int(e.cl)
+}
 
 // orderKey gives a total order on cases so that the example kept per signature is the same on every run
 // (smallest table first, then default ctx / default config first).
 func orderKey(tbl []entry, ci, ctxKind, mi, pi int) uint64 {
 	k := uint64(len(tbl))
 	for i := 0; i < maxLen; i++ {
-		k <<= 10
+		k <<= 12
 		if i < len(tbl) {
 			k |= uint64(entryID(tbl[i]))
 		}
@@ -361,8 +436,22 @@ func allowNames(mask uint16) []string {
 	return out
 }
 
-func obsOf(o *observed, _ []entry) map[string]any {
+func obsOf(o *observed, tbl []entry) map[string]any {
 	m := map[string]any{"handlers_run": traceNames(o.trace), "status": o.status}
+	for _, e := range tbl {
+		if e.chain() > 1 { // h<registration>.<index in its call>
+			hl := []string{}
+			for _, x := range o.raw {
+				idx := int(x & 7)
+				if idx == lastInChain {
+					idx = tbl[x>>3].chain() - 1
+				}
+				hl = append(hl, fmt.Sprintf("h%d.%d", x>>3, idx))
+			}
+			m["handler_level"] = hl
+			break
+		}
+	}
 	if o.allow != 0 || o.badAl != "" {
 		m["allow"] = allowNames(o.allow)
 	}
@@ -408,6 +497,7 @@ type sampleRec struct {
 type acc struct {
 	samples                                                   []sampleRec
 	apps, evals, nontrivial, bucketed, overrides, unspecified int64
+	multiRun, chainRun, exp405                                int64
 	outc                                                      [5][6][4]int64
 	viol                                                      map[string]*vrec
 }
@@ -447,10 +537,22 @@ func (a *acc) violate(sig, what string, key uint64, mk func() (any, any, any)) {
 
 // ---- enumeration ----------------------------------------------------------------------------------
 
-// alphabetOf lists the entries over a pattern subset.
+// alphabetOf lists the entries over a pattern subset (single-handler registrations, every behaviour).
 func alphabetOf(pats []string, kinds int) []entry {
-	var out []entry
+	var ks, bs []int
 	for k := 0; k < kinds; k++ {
+		ks = append(ks, k)
+	}
+	for b := 0; b < nBeh; b++ {
+		bs = append(bs, b)
+	}
+	return alphabetOver(ks, pats, bs, 1)
+}
+
+// alphabetOver lists the entries kinds x pattern subset x behaviours x the first nl chain lengths.
+func alphabetOver(kinds []int, pats []string, behs []int, nl int) []entry {
+	var out []entry
+	for _, k := range kinds {
 		for pi, p := range patterns {
 			in := false
 			for _, q := range pats {
@@ -459,10 +561,15 @@ func alphabetOf(pats []string, kinds int) []entry {
 			if !in {
 				continue
 			}
-			for b := 0; b < nBeh; b++ {
-				out = append(out, entry{uint8(k), uint8(pi), uint8(b)})
+			for _, b := range behs {
+				for cl := 0; cl < nl; cl++ {
+					out = append(out, entry{uint8(k), uint8(pi), uint8(b), uint8(cl)})
+				}
 			}
 		}
+	}
+	if len(out) != len(kinds)*len(pats)*len(behs)*nl {
+		core.Fatal("alphabet over %v: a pattern is not in the pattern list", pats)
 	}
 	return out
 }
@@ -506,15 +613,24 @@ func main() {
 		fmt.Fprintf(os.Stderr, "tables+selfcheck: %v\n", time.Since(r.Start))
 	}
 
-	full := alphabetOf(patterns, nKinds)
+	if (nKinds*len(patterns)*nBeh*nLens) > 1<<12 || len(reqPaths) > 1<<5 {
+		core.Fatal("orderKey fields too narrow for the alphabet")
+	}
+	full := alphabetOf(patterns, nFullKinds)
 	sub := alphabetOf(subPatterns, kGRP) // without the group kind
-	allPaths, subPaths := pathIdx(reqPaths), pathIdx(subReqPaths)
+	fam := alphabetOver(famKinds, famPatterns, famBehs, nLens)
+	allPaths, subPaths, famPaths := pathIdx(reqPaths), pathIdx(subReqPaths), pathIdx(famReqPaths)
 	var items []item
 	if !r.Quick() { // three entries over the sub-alphabet (first: these are the long items)
 		for _, e1 := range sub {
 			for _, e2 := range sub {
 				items = append(items, item{prefix: []entry{e1, e2}, last: sub, paths: subPaths})
 			}
+		}
+	}
+	for _, e1 := range fam { // three entries, same-path / multi-method family (both tiers)
+		for _, e2 := range fam {
+			items = append(items, item{prefix: []entry{e1, e2}, last: fam, paths: famPaths})
 		}
 	}
 	items = append(items, item{prefix: nil, paths: allPaths})             // empty table
@@ -564,8 +680,20 @@ func main() {
 		fmt.Fprintf(os.Stderr, "enumeration done: %v\n", time.Since(r.Start))
 	}
 	tot := collect(r)
+	// How the router files routes into buckets is an implementation detail a correct router may change: a
+	// degenerate index is reported, never an error.
 	if r.P.Counters["requests_selecting_a_specific_bucket"] == 0 {
-		core.Fatal("vacuous: no request ever selected a bucket other than the global one")
+		r.Note("no request selected a bucket other than the global one: this build of the router files every route in the global bucket, so the 3-byte index is not exercised (dispatch is still compared with the linear scan on every case)")
+	}
+	// Anti-vacuity of the harness's OWN exploration (complete runs only): handlers ran, chains of two and more
+	// registrations ran, overrides took effect, multi-handler registrations ran, 405 was expected somewhere.
+	if len(r.P.Caps) == 0 {
+		for _, c := range []string{"nontrivial", "evaluations_with_two_or_more_registrations_run", "evaluations_with_effective_override",
+			"evaluations_running_a_multi_handler_registration", "evaluations_expecting_405"} {
+			if r.P.Counters[c] == 0 {
+				core.Fatal("vacuous exploration: counter %s is zero", c)
+			}
+		}
 	}
 
 	// samples: conforming executions with at least two handlers and an effective override (6 smallest mixed keys)
@@ -578,7 +706,14 @@ func main() {
 	bounds := map[string]any{
 		"max_entries_full_alphabet": 2,
 		"entries_full_alphabet":     len(full),
-		"kinds":                     kindNames[:],
+		"kinds":                     kindNames[:nFullKinds],
+		"family_entries":            len(fam),
+		"family_table_length":       3,
+		"family_kinds":              kindNamesOf(famKinds),
+		"family_patterns":           famPatterns,
+		"family_behaviours":         []string{behNames[bReply], behNames[bNext]},
+		"family_handlers_per_call":  chainLens[:],
+		"family_request_paths":      famReqPaths,
 		"patterns":                  patterns,
 		"behaviours":                behNames[:],
 		"request_methods":           []string{"GET", "POST", "HEAD", "PUT"},
@@ -587,6 +722,7 @@ func main() {
 		"ctx_kinds":                 2,
 	}
 	rule := fmt.Sprintf("every sequence (duplicates allowed) of <=2 entries over %d entries (5 kinds x %d patterns x 5 behaviours)", len(full), len(patterns))
+	rule += fmt.Sprintf(" plus every sequence of exactly 3 entries over the %d-entry same-path/multi-method family (kinds %v x the escaped/unescaped twin patterns %q x behaviours reply/Next x %v handlers per registration call; requests: 4 methods x paths %v)", len(fam), kindNamesOf(famKinds), famPatterns, chainLens, famReqPaths)
 	if !r.Quick() {
 		bounds["max_entries_sub_alphabet"] = 3
 		bounds["entries_sub_alphabet"] = len(sub)
@@ -609,11 +745,19 @@ func main() {
 		Assumptions: []string{
 			"matching semantics are not judged (C02/C03): 'route i handles (method, path)' is the answer of the real Route.match on the route object(s) that the same registration creates when it is the ONLY registration of an app with the same config",
 			"detection path / path of a raw request path come from the real configDependentPaths (validated at start-up against live contexts, also after Path() overrides)",
-			"handler-level drive through app.Handler() on a fake connection; one handler per registration",
+			"handler-level drive through app.Handler() on a fake connection; one handler per registration call except in the same-path family, where a call passes 1 or 5 handlers (all but the last are Next() pass-throughs) and a registration counts as run when its whole chain ran in order",
 			"status/Allow at the end of a chain are only judged when no endpoint (non-Use entry) ran and no same-method endpoint for the final path exists anywhere in the table; otherwise the statement is silent (counted in unspecified_skipped)",
 		},
 		MinOutcomes: 6,
 	})
+}
+
+func kindNamesOf(ks []int) []string {
+	var out []string
+	for _, k := range ks {
+		out = append(out, kindNames[k])
+	}
+	return out
 }
 
 // selfCheck validates the path table against live contexts: for every config, ctx kind and request path
@@ -706,6 +850,9 @@ func enumerate(r *core.Run, items []item) *acc {
 		tot.bucketed += a.bucketed
 		tot.overrides += a.overrides
 		tot.unspecified += a.unspecified
+		tot.multiRun += a.multiRun
+		tot.chainRun += a.chainRun
+		tot.exp405 += a.exp405
 		tot.samples = append(tot.samples, a.samples...)
 		for s := range a.outc {
 			for n := range a.outc[s] {
@@ -744,6 +891,9 @@ func export(r *core.Run, a *acc) {
 	r.Add("requests_selecting_a_specific_bucket", a.bucketed)
 	r.Add("evaluations_with_effective_override", a.overrides)
 	r.Add("unspecified_skipped", a.unspecified)
+	r.Add("evaluations_with_two_or_more_registrations_run", a.multiRun)
+	r.Add("evaluations_running_a_multi_handler_registration", a.chainRun)
+	r.Add("evaluations_expecting_405", a.exp405)
 	stNames := [5]string{"200", "404", "405", "none", "other"}
 	ovNames := [4]string{"no-override-handler", "path-override-handler", "method-override-handler", "path+method-override-handlers"}
 	for s := range a.outc {
